@@ -237,9 +237,16 @@ def decl_lists():
         yield combo, texts
 
 
+# what stands in the global declarations when the faulted block is a template's: it precedes the faulted block textually, too
+GLOBAL_BEFORE_LOCAL = "int gv; int gfn(int q) { int t = q; if (t > 1) { t = 0; } return t; } int gfn2(int q) { return gfn(q) * 2; }"
+
+
 def decl_model(text, where):
     t = X.template("T", decl=text if where == "local" else "int lv;", locations=[X.location("id0", "L0")], init="id0")
-    return X.nta(text if where == "global" else "int gv;", [t], "system T;")
+    # (a second template after the faulted one: its declarations and its use of the global functions come later)
+    t2 = X.template("T2", decl="int l2 = 3;", locations=[X.location("id5", "M0")], init="id5",
+                    transitions=[X.transition("id5", "id5", guard="gfn2(l2) >= 0")] if where == "local" else [])
+    return X.nta(text if where == "global" else GLOBAL_BEFORE_LOCAL, [t, t2], "system T, T2;")
 
 
 def declared(dump, where):
@@ -290,7 +297,18 @@ def run_decls(arg):
         ref = refs[bk]
         got = declared(r["dump"], where)
         bad = None
-        for sect in ("frame", "vars", "funcs"):
+        if where == "local":
+            # the global declarations stand before the faulted block: present and unchanged, and nothing is reported outside the block
+            gk = ("globals-of", where)
+            if gk not in refs:
+                refs[gk] = declared(X.run_docs(w, [decl_model("int lv;", where)], want=["dump"], extra={"static": "off"})[0]["dump"], "global")
+            dd = diff(refs[gk], declared(r["dump"], "global"))
+            if dd:
+                bad = ("globals", dd)
+            elsewhere = [e for e in r.get("errors", []) if e.get("path") and e["path"] != "/nta/template[1]/declaration"]
+            if not bad and elsewhere:
+                bad = ("diagnostic-elsewhere", (elsewhere[0]["path"], elsewhere[0]["msg"], ""))
+        for sect in (("frame", "vars", "funcs") if not bad else ()):
             want = ref[sect]
             have = got[sect][:len(want)]
             dd = diff(want, have)
